@@ -134,6 +134,44 @@ int main(int argc, char **argv) {
         }
       }
     }
+    // integer tables that clang emitted as a packed struct of arrays (initialised prefix + zero tail): one value per row
+    if (G.hasInitializer() && G.isConstant()) {
+      if (auto *CS = dyn_cast<ConstantStruct>(G.getInitializer())) {
+        json::Array rows; bool ok = CS->getNumOperands() > 0; size_t total = 0;
+        for (unsigned k = 0; ok && k < CS->getNumOperands(); k++) {
+          const Constant *P = CS->getOperand(k);
+          if (auto *CI = dyn_cast<ConstantInt>(P)) { if (CI->getBitWidth() > 64 || ++total > 8192) { ok = false; break; } json::Array row; row.push_back((int64_t)CI->getZExtValue()); rows.push_back(std::move(row)); continue; }
+          auto *AT2 = dyn_cast<ArrayType>(P->getType());
+          if (!AT2 || !AT2->getElementType()->isIntegerTy() || (total += AT2->getNumElements()) > 8192) { ok = false; break; }
+          if (auto *CD = dyn_cast<ConstantDataArray>(P)) { for (unsigned j = 0; j < CD->getNumElements(); j++) { json::Array row; row.push_back((int64_t)CD->getElementAsInteger(j)); rows.push_back(std::move(row)); } }
+          else if (isa<ConstantAggregateZero>(P)) { for (uint64_t j = 0; j < AT2->getNumElements(); j++) { json::Array row; row.push_back((int64_t)0); rows.push_back(std::move(row)); } }
+          else ok = false;
+        }
+        if (ok && !rows.empty()) g["table"] = std::move(rows);
+      }
+    }
+    // pointer tables (nested radix tables): the flattened leaves, each null or the name of the global pointed into
+    if (G.hasInitializer()) {
+      const Constant *In = G.getInitializer();
+      json::Array leaves; size_t budget = 70000;
+      std::function<bool(const Constant *)> pflat = [&](const Constant *C) -> bool {
+        Type *T = C->getType();
+        if (T->isPointerTy()) {
+          if (leaves.size() >= budget) return false;
+          if (isa<ConstantPointerNull>(C)) { leaves.push_back(nullptr); return true; }
+          const Value *B = C->stripInBoundsOffsets();
+          if (auto *GV = dyn_cast<GlobalVariable>(B)) { leaves.push_back(GV->getName().str()); return true; }
+          return false;
+        }
+        if (isa<ConstantAggregateZero>(C)) {
+          if (auto *AT2 = dyn_cast<ArrayType>(T)) { if (!AT2->getElementType()->isPointerTy() || leaves.size() + AT2->getNumElements() > budget) return false; for (uint64_t k = 0; k < AT2->getNumElements(); k++) leaves.push_back(nullptr); return true; }
+          return false;
+        }
+        if (isa<ConstantArray>(C) || isa<ConstantStruct>(C)) { for (unsigned k = 0; k < C->getNumOperands(); k++) if (!pflat(cast<Constant>(C->getOperand(k)))) return false; return true; }
+        return false;
+      };
+      if ((isa<ConstantArray>(In) || isa<ConstantStruct>(In)) && pflat(In) && !leaves.empty()) g["ptrs"] = std::move(leaves);
+    }
     SmallVector<DIGlobalVariableExpression *, 1> GVs; G.getDebugInfo(GVs);
     if (!GVs.empty()) { g["line"] = (int64_t)GVs[0]->getVariable()->getLine(); g["file"] = GVs[0]->getVariable()->getFilename().str(); g["srcname"] = GVs[0]->getVariable()->getName().str(); }
     globals.push_back(std::move(g));
